@@ -15,6 +15,7 @@ scratch copy in the state the history left it in.
 """
 import json
 import os
+import re
 import shutil
 import subprocess
 import sys
@@ -91,6 +92,26 @@ def read_library():
             THEORIES.append(name)
             IMPORTS[name] = list(data['imports'])
             CONTENT[name] = [[it['ty'], it.get('name')] for it in data['content']]
+            with open(os.path.join(libdir, f), encoding='utf-8') as fh:
+                TEXT[name] = fh.read()
+    _USED.clear()
+
+
+TEXT = {}
+_USED = {}
+
+
+def used_between(d, i, target):
+    """Does some theory strictly between `d` and `target` (it imports d, target imports it) mention the name of item i of
+    d?  Textual, so only a heuristic - used to aim deletions at definitions whose removal changes how an INTERMEDIATE
+    theory parses (what that theory cached goes stale although its own file is unchanged)."""
+    key = (d, i, target)
+    if key not in _USED:
+        nm = CONTENT[d][i][1]
+        pat = re.compile(r'(?<![A-Za-z0-9_])%s(?![A-Za-z0-9_])' % re.escape(nm)) if nm else None
+        mids = [m for m in closure(target)[:-1] if m != d and d in closure(m)]
+        _USED[key] = bool(pat) and any(pat.search(TEXT[m]) for m in mids)
+    return _USED[key]
 
 
 def closure(name, imports=None):
@@ -724,8 +745,13 @@ def history_strategy(shape, variant=None):
             T = draw(st.sampled_from(special))
             pool = [x for x in closure(T)[-6:] if x != T]
         elif kind == 'delete':
-            # preferably a file the target imports (what the target-side theories cached about it goes stale)
+            # preferably a file the target imports (what the target-side theories cached about it goes stale), and
+            # among those one with a definition that a theory between it and the target mentions
             pool = [x for x in near if x != target] or near
+            pool2 = [x for x in pool if any(it[0].startswith(('def', 'type')) and used_between(x, i, target)
+                                            for i, it in enumerate(CONTENT[x]))]
+            if pool2 and draw(st.integers(0, 2)) != 0:
+                pool = pool2
         elif kind == 'add_import':
             pool = [x for x in cl if free_for(x)] or cl
         else:
@@ -748,7 +774,10 @@ def history_strategy(shape, variant=None):
             block.append(['restore', d])
         elif kind == 'delete':
             defs = [i for i, it in enumerate(CONTENT[d]) if it[0].startswith('def') or it[0].startswith('type')]
-            if defs and draw(st.sampled_from([True, True, True, False])):
+            chain = [i for i in defs if used_between(d, i, target)]
+            if chain and draw(st.integers(0, 3)) != 0:
+                block.append(['delete', d, draw(st.sampled_from(chain))])    # ... that an intermediate theory refers to
+            elif defs and draw(st.sampled_from([True, True, True, False])):
                 block.append(['delete', d, draw(st.sampled_from(defs))])     # something later items refer to
             elif CONTENT[d]:
                 block.append(['delete', d, draw(st.integers(0, len(CONTENT[d]) - 1))])
@@ -813,7 +842,7 @@ def history_strategy(shape, variant=None):
 PLAN = [('imports', None), ('file', 'insert'), ('recovery', None), ('loads', None), ('file', 'delete'), ('imports', None),
         ('file', 'add_import'), ('cycle', None), ('loads', None), ('file', 'touch'), ('recovery', None), ('imports', None),
         ('file', 'restore'), ('broken', None), ('loads', None), ('file', 'delete'), ('recovery', None), ('imports', None),
-        ('file', 'add_import'), ('loads', None), ('file', 'insert'), ('cycle', None), ('recovery', None), ('imports', None)]
+        ('file', 'add_import'), ('loads', None), ('file', 'insert'), ('cycle', None), ('recovery', None), ('file', 'delete')]
 
 
 def shards(tier):
